@@ -861,7 +861,7 @@ def chunk(job):
 def main():
   args = parse_args()
   quick = args.tier == "quick"
-  chunks = 64 if quick else 1500      # chunks of 10 documents per scope
+  chunks = 48 if quick else 1500      # chunks of 10 documents per scope
   per = 10
   ncfg = 2 if quick else 3
   rec = Recorder("C16", "seeded random canonical-model documents (rtc/docgen.py enriched by rtc/c16.py: 0-6 regions from a pool of timings, "
